@@ -41,6 +41,19 @@ def tree_hash(repo=None):
     return h.hexdigest()[:24]
 
 
+def checker_hash():
+    """hash of the checker's own sources (rules, evaluator, models, oracles): cached shared-rule results are only reused by the code that produced them"""
+    h = hashlib.sha256()
+    for base in (os.path.join(VERIF, 'checker'), os.path.join(VERIF, 'oracles')):
+        for root, dirs, files in os.walk(base):
+            dirs[:] = sorted(d for d in dirs if d != '__pycache__')
+            for f in sorted(files):
+                if f.endswith('.py'):
+                    with open(os.path.join(root, f), 'rb') as fh:
+                        h.update(f.encode() + b'\0' + fh.read() + b'\0')
+    return h.hexdigest()[:12]
+
+
 def build_tool(name):
     d = os.path.join(VERIF, 'tools', name)
     env = dict(os.environ, CARGO_NET_OFFLINE='true')
